@@ -7,6 +7,7 @@ import Driver.Hyb
 import Driver.Lay
 import Driver.Rcl
 import Driver.Crash
+import Driver.Fault
 /-
   `foyer_model`: reads traces from stdin, prints one verdict line per trace.
   A trace is a `cfg domain=<d> …` line followed by that domain's lines, up to the next `cfg`.
@@ -28,6 +29,7 @@ def monitor (cfgF : Fields) (body : List (Nat × Fields)) : String :=
   | "hyb" => Driver.Hyb.monitor cfgF body
   | "lay" => Driver.Lay.monitor cfgF body
   | "crash" => Driver.Crash.monitor cfgF body
+  | "fault" => Driver.Fault.monitor cfgF body
   | "blk" =>
     let r := Driver.Rcl.monitor cfgF body
     if r = "HOLDS" then Driver.Hyb.monitor cfgF body else r
@@ -43,6 +45,7 @@ def dispatch (cfgF : Fields) (body : List (Nat × Fields)) : String :=
   | "hyb" => Driver.Hyb.runTrace cfgF body
   | "lay" => Driver.Lay.runTrace cfgF body
   | "crash" => Driver.Crash.runTrace cfgF body
+  | "fault" => Driver.Fault.runTrace cfgF body
   | "blk" => Driver.Rcl.runTrace cfgF body
   | d => s!"REJECT line=0 step=0 field=domain model=unknown impl={d}"
 
